@@ -13,5 +13,6 @@ def show(e,d=0):
     if t=="bin": return "(%s %s %s)"%(show(e[2],d+1),e[1],show(e[3],d+1))
     if t=="un": return "%s(%s)"%(e[1],show(e[2],d+1))
     if t=="const": return repr(e[1])
+    if t=="static": return "static<%s>"%e[1].split("::")[-1]
     if t=="cast": return "cast(%s)"%show(e[2],d+1)
     return str(e[:2])
